@@ -810,9 +810,11 @@ def run_property(prop_id, tier="quick", seed=0, verbose=True):
             "replay_cmd": f"./check {prop_id} --replay <this file>"})
         violations.append((path, True))
     mism_unexplained = []
+    new_fail_idx = {i for i, _ in new_fail}
     for idx in mism:
-        if idx in oracle_fail:
-            continue  # already accounted for (violation or known finding)
+        if idx in new_fail_idx:
+            continue  # already reported as a property violation with this input
+        # a case that only reproduces a KNOWN finding must still agree with the (faithful) model
         mism_unexplained.append(idx)
     if mism_unexplained and not new_fail:
         # correspondence broke but the oracle found no failing input among the generated cases:
